@@ -84,4 +84,25 @@ TEXT = {
                   'it is reachable only through the expiry/cancel edge of a timer armed after the last dequeue, which is wait_for(queue.get(), self.timeout) with self.timeout the constructor option; '
                   'drain precedes arming, drained producers are gathered before the timer is awaited, and a successful timed get goes back to the loop head.',
          'note': COMMON_NOTE + 'every numeric timing claim (the call starts `timeout` after the last arrival; tie behaviour).'},
+ 'C16': {'ref': '4.E C16', 'technique': TECH + 'sibling protocol rule (producer/consumer/sentinel), must-pass-through on producer exits, lexical scope of the executor',
+         'level': 'Both bridges are checked as one protocol: the sentinel put lies on every exit of each producer and after all element puts; the consumer\'s loop test is an identity comparison with the module sentinel and yields every other value unconditionally; '
+                  'the producer future is awaited / its result() taken after the loop; a synchronous iterator is advanced only in the function handed to run_in_executor; the hand-off uses call_soon_threadsafe(q.put_nowait) resp. queue.Queue; '
+                  'the ThreadPoolExecutor(1) with-block encloses submit, loop and collection.',
+         'note': COMMON_NOTE + 'loop responsiveness as measured time; early abandonment of the generator by the consumer (outside the statement).'},
+ 'C17': {'ref': '4.E C17', 'technique': 'static analysis: path enumeration with facts over the atoms same/running/closed (truth table), lexical lock regions, double-check path rule, provenance of loop and awaitable arguments',
+         'level': 'Every path through ensure_aw is classified by its action and must carry the guard facts of the dispatch table; run_until_complete/run_forever sites are inside `with _get_loop_lock(<same loop>)`; '
+                  'the lock table is written only under the creation lock after a locked re-probe and keyed by id(loop); the awaitable reaches run_until_complete / run_coroutine_threadsafe with the target loop and every branch is `return await` without handlers; '
+                  'loop_in_thread returns only through the true edge of is_running(); the stopper uses call_soon_threadsafe(loop.stop) then joins.',
+         'note': COMMON_NOTE + 'the TOCTOU between the is_running() test and the loop stopping/starting; completion under pool exhaustion.'},
+ 'C18': {'ref': '4.E C18', 'technique': 'static analysis: affine-use (ownership) analysis of one-shot iterator values along both paths of split',
+         'level': 'split is evaluated symbolically on both paths (callable / iterable condition): every iterator value (parameters, each tee output, map, compress) is consumed at most once; the callable is applied by exactly one map over a private tee copy of the source; '
+                  'the results are compress(a, c) and compress(b, map(not_, c\')) with a, b and c, c\' sibling outputs of one tee each, truthy side first; no eager consumer; exhaust drains via deque(maxlen=0) and returns nothing.',
+         'note': COMMON_NOTE + 'nothing material; tee/compress/map semantics are trusted stdlib.'},
+ 'C19': {'ref': '4.E C19', 'technique': 'static analysis: syntactic rules on the nested helpers with path checks, forbidden-call scan with positive control, default-argument resolution',
+         'level': 'split(sep, 1) on the string item; the unpacking ValueError is translated to ValueError on every path; the default parser resolves to ast.literal_eval and the module contains no eval/exec/compile/import/pickle/getattr call or reference '
+                  '(positive control must match); parse(x) is control-dependent on isinstance(x, str) and every Exception edge of it reaches `return x`; the parse_keys switch selects (parsed, parsed) vs (raw, parsed); mappings go through .items() and every item through the pair parser into dict().',
+         'note': COMMON_NOTE + 'extensional equality with a reference model on all inputs; behaviour of ast.literal_eval itself.'},
+ 'C20': {'ref': '4.E C20', 'technique': 'static analysis: call-shape rule on asyncio.gather, iteration provenance, control dependence of the yield',
+         'level': 'gather_excs passes *aws unfiltered to asyncio.gather with the literal return_exceptions=True, iterates the awaited result directly, yields res only under isinstance(res, only); raise_first_exc forwards (aws, only) and raises the first value.',
+         'note': COMMON_NOTE + 'nothing material; gather\'s run-to-completion and ordering are trusted stdlib behaviour.'},
 }
